@@ -1,6 +1,7 @@
 import Goflow.Gen.Config
 import Goflow.Gen.History
 import Goflow.Gen.C08
+import Goflow.Gen.C14
 /-!
   C13 generator: formatter configurations × messages with arbitrary values (`fmt` ops) and traffic
   of the C03–C10 kinds through pipes that print every message in the three forms (`pktf` ops).
@@ -109,7 +110,8 @@ def genTraffic (i : Nat) : G (List String) := do
 def gen (n : Nat) : G (List String) := do
   let mut out : List String := []
   for i in [0:n] do
-    if i % 4 = 3 then out := out ++ (← genTraffic i)
+    if i % 8 = 5 then out := out ++ (← C14.genElemRound i)      -- custom fields written by the mapper, all forms printed
+    else if i % 4 = 3 then out := out ++ (← genTraffic i)
     else out := out ++ (← genRound i 6)
   pure out
 
